@@ -14,6 +14,9 @@ TESTS="$(cd "$WT" && /venv/bin/python -m pytest -q -p no:cacheprovider --timeout
 ( cd "$D" && /venv/bin/python demo.py "$WT" >/dev/null 2>&1 ); PATCHED=$?
 echo "demo clean=$CLEAN patched=$PATCHED tests: $TESTS"
 for C in "$@"; do
-  OUT="$(cd /verif && VERIF_EVIDENCE_DIR="$WT/.verif_evidence" VERIF_REPLAY_DIR="$WT/.verif_replays" PYGYRO_REPO="$WT" ./check "$C" --no-build ${EXTRA_ARGS:-} 2>&1 | grep -E 'VIOLATION|^ok|^FAIL|HARNESS' | tr '\n' ' ')"
+  OUT="$(cd /verif && VERIF_EVIDENCE_DIR="$WT/.verif_evidence" VERIF_REPLAY_DIR="$WT/.verif_replays" PYGYRO_REPO="$WT" ./check "$C" ${NOBUILD---no-build} ${EXTRA_ARGS:-} 2>&1 | grep -E 'VIOLATION|^ok|^FAIL|HARNESS' | tr '\n' ' ')"
   echo "check $C: $OUT"
 done
+# the checks regenerate lean/PygyroVerif/Generated/* from the tree under test: put back what /repo says
+/venv/bin/python /verif/harness/translate_driver.py --repo /repo --quiet >/dev/null 2>&1
+/venv/bin/python /verif/harness/translate_pure.py --repo /repo --quiet >/dev/null 2>&1
